@@ -222,6 +222,28 @@ MovesReroot(h, kn) ==
                                                      MMutate(i, <<KV("w", Agg("sum", Col(b[1])))>>)>> ELSE <<>>)
              \o RefProbes(h, i, kn)
 
+(* the aggregate of a table, re-rooted with a plain alias(), joined back onto the table itself; then the origin's own references *)
+(* (also those the aggregate no longer has in scope) must still denote the origin's columns                                     *)
+MovesRerootAgg(h, kn) ==
+    LET i == Len(h)
+        t == h[i]
+        o == h[1]
+        b == ColOf(t, "b")
+        g == ColOf(t, "g")
+        s == ColOf(t, "s")
+        og == ColOf(o, "g")
+        ob == ColOf(o, "b")
+        aliased == i > 1 /\ t.root \cap o.root = {}
+    IN  IF IsJoined(t) THEN (IF "probe" \in VisNames(t) THEN <<>> ELSE RefProbes(h, i, kn))
+        ELSE IF aliased
+             THEN (IF g # <<>> /\ og # <<>> THEN <<MJoin(1, i, <<Fn2("eq", Col(og[1]), Col(g[1]))>>, "left", ""),
+                                                     MJoin(1, i, <<Fn2("eq", Col(og[1]), Col(g[1]))>>, "inner", "_r")>> ELSE <<>>)
+                  \o (IF g = <<>> /\ s # <<>> /\ ob # <<>> THEN <<MJoin(1, i, <<Fn2("le", Col(ob[1]), Col(s[1]))>>, "inner", "")>> ELSE <<>>)
+        ELSE IF Summarized2(t) THEN <<MAlias(i, "s", FALSE)>>
+        ELSE IF t.part # <<>> THEN MapS(b, LAMBDA c : MSummarize(i, <<KV("s", Agg("max", Col(c)))>>))
+        ELSE MapS(g, LAMBDA c : MGroupBy(i, <<Col(c)>>, FALSE)) \o MapS(b, LAMBDA c : MSummarize(i, <<KV("s", Agg("max", Col(c)))>>))
+             \o MapS(b, LAMBDA c : MFilter(i, <<Fn2("gt", Col(c), LitI(0))>>))
+
 SrcHeapsOne == [k \in DOMAIN SrcPairs |-> <<SrcTables[SrcPairs[k][1]]>>]
 
 ---------------------------------------------------------------------------
